@@ -400,6 +400,99 @@ def run(tier, seed):
     return v.finish()
 
 
+def judge_recorded_order(lines):
+    """The API-level oracles of harness/drv_chain.c re-evaluated on a recorded total order (per execution)."""
+    bad = []
+    items, widths, lanes = {}, {}, {}
+    def judge():
+        ids = sorted(items)
+        for i in ids:
+            a = items[i]
+            if a.get("starts", 0) != 1 and "ret" in a:
+                bad.append("item %d ran %d times" % (i, a.get("starts", 0)))
+        for i in ids:
+            a = items[i]
+            if "start" not in a or "end" not in a:
+                continue
+            for j in ids:
+                b = items[j]
+                if i == j or "start" not in b or "end" not in b:
+                    continue
+                if i < j and a["start"] < b["end"] and b["start"] < a["end"]:
+                    bad.append("items %d and %d of the hierarchy overlapped" % (i, j))
+                if a["q"] == b["q"] and lanes.get(a["q"]) and widths.get(a["q"]) == 1 and "ret" in a and "call" in b \
+                        and a["ret"] < b["call"] and not a["end"] < b["start"]:
+                    bad.append("serial queue #%d ran item %d before item %d submitted earlier" % (a["q"], j, i))
+        items.clear()
+    for n, l in enumerate(lines):
+        try:
+            j = json.loads(l)
+        except Exception:
+            continue
+        e = j.get("e")
+        if e == "Reset":
+            if j.get("q") == 0:
+                judge()
+            widths[j["q"]] = j.get("w", 1)
+            lanes[j["q"]] = j.get("lane", True)
+        elif e in ("Call", "Ret", "Start", "End"):
+            it = items.setdefault(j["i"], {"q": j.get("q")})
+            it[e.lower()] = n
+            if e == "Start":
+                it["starts"] = it.get("starts", 0) + 1
+            if e == "Ret" and j.get("k") in ("rs", "bs", "rw", "bw") and "end" not in it:
+                bad.append("synchronous submission of item %d returned before the item finished" % j["i"])
+        elif e in ("Hang", "Crash"):
+            bad.append("the execution ended in a %s" % e.lower())
+    judge()
+    return bad
+
+
 def replay(path, seed):
-    print(open(path).read()[-3000:])
-    return 1
+    """Re-judges a saved artefact: TLC output of a violated model (printed), or a recorded execution (whole, or the
+    records of one queue): the recorded order is re-evaluated against the property's oracles and re-validated against
+    ChainWordTrace / ChainLockTrace / ThreadEventTrace.  exit 1 iff the violation is still there."""
+    txt = open(path).read()
+    if not txt.lstrip().startswith("{"):
+        print(txt[-3000:])
+        return 1
+    lines = [l for l in txt.splitlines() if l.strip() and '"Header"' not in l]
+    d = rundir(PROP)
+    tmp = os.path.join(d, "replay_input.ndjson")
+    open(tmp, "w").write("\n".join(lines) + "\n")
+    bad = judge_recorded_order(lines)
+    for b in bad[:10]:
+        print("oracle: " + b)
+    nt = count_threads(tmp) + 1
+    widths = trace_widths(tmp)
+    lanes = {}
+    for l in lines:
+        if '"Reset"' in l:
+            j = json.loads(l)
+            lanes[j["q"]] = j.get("lane", True)
+    for q, p in sorted(split_trace(tmp, d, "replay").items()):
+        if q not in widths or not lanes.get(q, True):
+            continue
+        r = validate_trace("ChainWordTrace.tla", wordtrace_cfg(widths[q]), p, nthreads=nt, metaname="C03_replay_q%d" % q)
+        print("ChainWordTrace queue #%d (W=%d): %s (matched %s of %s records)%s" % (
+            q, widths[q], "accepted" if r.accepted else "REJECTED", r.maxl, r.tracelen, (" invariant " + r.violated) if r.violated else ""))
+        if not r.accepted:
+            hl = open(r.trace_with_header).read().splitlines()
+            k = r.maxl or 1
+            print("  first unexplained record: %s" % (hl[k - 1][:400] if k - 1 < len(hl) else "?"))
+            bad.append("word-level")
+    whole = any('"Start"' in l for l in lines)
+    if whole:
+        for spec, cfg in (("ChainLockTrace.tla", "ChainLockTrace.cfg"), ("ThreadEventTrace.tla", "ThreadEventTrace.cfg")):
+            r = validate_trace(spec, cfg, tmp, nthreads=nt, metaname="C03_replay_w")
+            print("%s: %s (matched %s of %s records)" % (spec, "accepted" if r.accepted else "REJECTED", r.maxl, r.tracelen))
+            if not r.accepted:
+                hl = open(r.trace_with_header).read().splitlines()
+                k = r.maxl or 1
+                print("  first unexplained record: %s" % (hl[k - 1][:400] if k - 1 < len(hl) else "?"))
+                bad.append(spec)
+    if bad:
+        print("VIOLATION property=%s replay=%s" % (PROP, path))
+        return 1
+    print("OK property=%s (replayed artefact shows no violation)" % PROP)
+    return 0
